@@ -3,13 +3,15 @@
 // no verifier reaches it). Contract of SpellCheck::lint against Dictionary::words_iter as ground truth, for
 // the American and the British dialect:
 //  (a) for every curated entry w (thorough tier; the quick tier takes every 4th entry, offset by the dialect) that the plain-English lexer reads as one Word token and whose
-//      dialect tag is absent or the active one: w alone, w inside the sentence "We saw <w> today.", and - when
+//      dialect tag is absent or the active one: w alone, w inside the sentence "We saw <w> today.", w as the last word
+//      of a sentence ("We saw <w>. Then we left.", "We saw <w>."), and - when
 //      w is all lower-case - Capitalised(w) and UPPER(w) produce no spelling lint on w;
 //  (b) for every 40th entry (quick tier: every 400th), mutated into a letter string the dictionary does not contain under any
 //      capitalisation: exactly one spelling lint, covering exactly the word, alone and inside the sentence;
 //      every suggestion is (up to its capitalised first letter) a dictionary word of the active dialect;
 //  (c) every 7th entry tagged with ANOTHER dialect, one letter deleted, looked up twice by the same rule instance:
-//      all suggestions belong to the active dialect both times.
+//      all suggestions belong to the active dialect both times;
+//  (d) every 5th entry tagged with another dialect only: listed, Capitalised and UPPER form are each reported.
 use crate::FstDictionary;
 
 #[test]
@@ -35,7 +37,13 @@ fn rac_spell_check() {
             if in_dialect {
                 cases += 1;
                 let lower = w.iter().all(|c| !c.is_uppercase());
+                // alone, inside a sentence, and as the last word of a sentence (the full stop must not be glued to it)
                 let mut forms: Vec<String> = vec![text.clone(), format!("We saw {} today.", text)];
+                // (entries that end in a period themselves, like "etc.", would make a double full stop here)
+                if w.iter().all(|c| c.is_alphanumeric()) {
+                    forms.push(format!("We saw {}. Then we left.", text));
+                    forms.push(format!("We saw {}.", text));
+                }
                 if lower {
                     let mut cap = w.clone();
                     let up: Vec<char> = cap[0].to_uppercase().collect();
@@ -120,6 +128,32 @@ fn rac_spell_check() {
                             }
                         }
                     }
+                }
+            }
+        }
+    }
+    // (d) an entry tagged with ANOTHER dialect only is not a word of the active dialect: its listed form (which the
+    //     repository's own test american_color_in_british_dialect pins) and its Capitalised / UPPER forms are reported
+    for dialect in [Dialect::American, Dialect::British] {
+        let mut rule = SpellCheck::new(dict.clone(), dialect);
+        let mut n = 0usize;
+        for w in words.iter() {
+            let Some(m) = dict.get_word_metadata(w) else { continue };
+            let Some(d) = m.dialect else { continue };
+            if d == dialect || w.len() < 4 || !w.iter().all(|c| c.is_ascii_lowercase()) { continue; }
+            n += 1;
+            if n % 5 != 0 { continue; }
+            let text: String = w.iter().collect();
+            let mut cap = w.clone();
+            cap[0] = cap[0].to_ascii_uppercase();
+            for f in [text.clone(), cap.iter().collect::<String>(), text.to_uppercase()] {
+                cases += 1;
+                let doc = Document::new_plain_english(&f, &dict);
+                if doc.get_tokens().len() != 1 { continue; }
+                let lints = rule.lint(&doc);
+                if !lints.iter().any(|l| l.span.start == 0 && l.span.end == w.len()) {
+                    println!("RAC-CEX spell_check {{\"dialect\": \"{:?}\", \"text\": {:?}, \"why\": \"a word that only another dialect ({:?}) lists is not reported\"}}", dialect, f, d);
+                    panic!("spell-check contract violated");
                 }
             }
         }
